@@ -63,6 +63,9 @@ def as_str(ctx, v):
     if isinstance(v, StrV): return v
     if isinstance(v, Lazy): return lazy_str(ctx.eng, v)
     if isinstance(v, Agg) and len(v.f) == 1: return as_str(ctx, v.f[0])     # newtypes (String{vec}, KebabString, ...)
+    if isinstance(v, Opaque):
+        # text produced by an opaque call (error messages ...): an arbitrary string
+        return lazy_str(ctx.eng, Lazy(f'{v.name}!text{fresh_id()}', '&str'))
     raise EngineError(f'not a string: {v!r}')
 
 def lazy_str(eng, l, cap=None):
@@ -137,12 +140,16 @@ def m_asref(ctx): return ctx.ret(ctx.args[0])
 def m_as_str(ctx): return ctx.ret(ctx.args[0])
 @model(r'^<(?:str|String|std::string::String|&str|&String|&&str) as (?:ToString|ToOwned|Clone)>::(?:to_string|to_owned|clone)$|^<String as From<&(?:mut )?(?:str|String)>>::from$|^<str as Into<String>>::into$|^<&str as Into<String>>::into$|^core::str::<impl str>::to_owned$|^<&str as Into<Box<str>>>::into$')
 def m_to_string(ctx):
+    v0 = ctx.deref(ctx.args[0])
+    if isinstance(v0, Opaque): return ctx.ret(v0)
     if ctx.eng.atom_strings:
         v = ctx.deref(ctx.args[0])
         if isinstance(v, Lazy) or type(v).__name__ == 'Atom': return ctx.ret(v)
     return ctx.ret(as_str(ctx, ctx.args[0]))
 @model(r'^<(?:&)?(?:u8|u16|u32|u64|usize|i8|i16|i32|i64|isize|bool|char) as Clone>::clone$')
 def m_clone_scalar(ctx): return ctx.ret(ctx.deref(ctx.args[0]))
+@model(r'^<impl Into<(?:std::string::)?String> as Into<(?:std::string::)?String>>::into$|^<impl Into<.*> as Into<.*>>::into$')
+def m_into_impl(ctx): return ctx.ret(ctx.args[0])
 @model(r'^<.* as Into<.*>>::into$|^<.* as From<.*>>::from$')
 def m_into_same(ctx):
     m = re.match(r'^<(.*) as Into<(.*)>>::into$', ctx.callee, re.S) or re.match(r'^<(.*) as From<(.*)>>::from$', ctx.callee, re.S)
@@ -516,3 +523,7 @@ def m_panic(ctx):
     msg = ''
     if ctx.argstrs and ctx.argstrs[0].startswith('const "'): msg = ': ' + ctx.argstrs[0][6:66]
     return ctx.panic(re.sub(r'::<.*', '', ctx.callee) + msg)
+
+@model(r'^<.* as ToString>::to_string$|^<.* as std::fmt::Display>::fmt$')
+def m_display_to_string(ctx):
+    ctx.eng.opaque_calls.add('ToString::to_string of a non-string value'); return ctx.ret(Opaque(f'text{fresh_id()}'))
